@@ -143,8 +143,6 @@ type c17Gen struct {
 	markerUsed int
 	nDyn       int
 	nForbid    int
-	exThr      bool
-	exMark     bool
 	exEP       bool
 	cacheDel   bool // the gateway has deleted something from the cache index
 	thorough   bool
@@ -269,92 +267,6 @@ func (g *c17Gen) candidates() []c17Pos {
 
 func (g *c17Gen) genState(e *c17Ent) int { return e.GenSt }
 
-// bugAgrees: would the gateway as it is today (it compares the similarity
-// 1/(1+d) returned by VSearchWithScores with the threshold) take the decision
-// the statement demands? Used only to keep the known finding
-// "threshold-as-similarity" out of the generated cases.
-func (g *c17Gen) bugAgrees(d c17Dec, vec []float32, cacheApplies bool) bool {
-	// an answer to a pass-through request may or may not be in the index: the
-	// nearest neighbour must lead to the right decision either way
-	return g.bugAgrees1(d, vec, cacheApplies, true) && g.bugAgrees1(d, vec, cacheApplies, false)
-}
-
-func (g *c17Gen) bugAgrees1(d c17Dec, vec []float32, cacheApplies bool, withMaybe bool) bool {
-	c := g.c
-	if d.Pat {
-		return true // the pattern layer runs first and is not affected
-	}
-	semCode := false
-	if len(g.m.forb) > 0 {
-		s, thr := 1/(1+d.NearForb), float64(c.FwThr)
-		if math.Abs(s-thr) < 0.05*thr {
-			return false
-		}
-		semCode = s < thr
-	}
-	if semCode != d.Sem {
-		return false
-	}
-	if d.Sem || !cacheApplies {
-		return true
-	}
-	dn := math.Inf(1)
-	var present []*c17Ent
-	for _, e := range g.m.ents {
-		if e.Present && (withMaybe || !e.Maybe) {
-			present = append(present, e)
-			if n := c17Native(c.CacheMetric, vec, e.Vec); n < dn {
-				dn = n
-			}
-		}
-	}
-	if len(present) == 0 {
-		return true
-	}
-	s, thr := 1/(1+dn), float64(c.CacheThr)
-	if math.Abs(s-thr) < 0.05*thr {
-		return false
-	}
-	codeIn := s < thr
-	if !codeIn {
-		return len(d.LiveIn) == 0 && len(d.ExpIn) == 0 && len(d.UncIn) == 0
-	}
-	var ties []*c17Ent
-	for _, e := range present {
-		if c17Native(c.CacheMetric, vec, e.Vec) <= dn*(1+1e-6)+1e-9 {
-			ties = append(ties, e)
-		}
-	}
-	st := ties[0].GenSt
-	for _, t := range ties {
-		if t.GenSt != st {
-			return false
-		}
-	}
-	switch st {
-	case c17Unc:
-		return false
-	case c17Live:
-		if len(d.LiveIn) == 0 {
-			return false
-		}
-		for _, t := range ties {
-			found := false
-			for _, l := range d.LiveIn {
-				if l == t {
-					found = true
-				}
-			}
-			if !found {
-				return false
-			}
-		}
-		return true
-	default: // expired nearest: the gateway answers "miss" and deletes it
-		return len(d.LiveIn) == 0 && len(d.ExpIn) == 1 && len(ties) == 1 && ties[0] == d.ExpIn[0]
-	}
-}
-
 type c17Cand struct {
 	pos c17Pos
 	vec []float32
@@ -383,12 +295,7 @@ func (g *c17Gen) evaluate(pos c17Pos, deco c17Deco, stream bool) (c17Cand, bool)
 		return cd, false
 	}
 	if deco.marker != "" {
-		if blocked {
-			if g.exMark {
-				g.excluded[c17FindMark] = 1
-				return cd, false
-			}
-		} else {
+		if !blocked {
 			// benign pass-through prompt: must sit far from everything
 			if pos.Kind != "m" || len(d.LiveIn)+len(d.ExpIn)+len(d.UncIn) > 0 || d.CacheAmb {
 				return cd, false
@@ -398,12 +305,6 @@ func (g *c17Gen) evaluate(pos c17Pos, deco c17Deco, stream bool) (c17Cand, bool)
 	if g.exEP && g.cacheDel && cacheApplies && len(d.LiveIn) > 0 {
 		g.excluded[c17FindEP] = 1
 		return cd, false
-	}
-	if g.exThr && !(deco.marker != "" && !blocked) {
-		if !g.bugAgrees(d, v, cacheApplies) {
-			g.excluded[c17FindThr] = 1
-			return cd, false
-		}
 	}
 	switch {
 	case d.Pat && d.Sem:
@@ -554,11 +455,7 @@ func (g *c17Gen) genReq(i int) (c17Step, bool) {
 		deco.marker = c17Pick(rt, "marker", c17MarkerTexts)
 		deco.markerFirst = rapid.Bool().Draw(rt, "marker-first")
 		if !wantDeny {
-			markerBenign = c17Int(rt, "marker-benign", 0, 2) == 0 || g.exMark
-		}
-		if g.exMark && wantDeny {
-			g.excluded[c17FindMark] = 1
-			deco.marker = ""
+			markerBenign = c17Int(rt, "marker-benign", 0, 2) == 0
 		}
 		if markerBenign && g.markerUsed >= g.M {
 			deco.marker, markerBenign = "", false
@@ -735,8 +632,7 @@ func c17GenCase() *rapid.Generator[*c17Case] {
 	return rapid.Custom(func(rt *rapid.T) *c17Case {
 		c := &c17Case{}
 		g := &c17Gen{rt: rt, c: c, pids: map[string]int{}, embedded: map[string]bool{}, excluded: map[string]int{},
-			exThr: c17Excl(c17FindThr), exMark: c17Excl(c17FindMark), exEP: c17Excl(c17FindEP), thorough: verifkit.Thorough()}
-		exIdx, exTok := c17Excl(c17FindIdx), c17Excl(c17FindTok)
+			exEP: c17Excl(c17FindEP), thorough: verifkit.Thorough()}
 		g.K = c17Int(rt, "topics", 2, 4)
 		g.M = 2
 		c.Dim = 2*g.K + g.M + 1
@@ -747,12 +643,6 @@ func c17GenCase() *rapid.Generator[*c17Case] {
 		c.FwMetric = c17Pick(rt, "fw-metric", metrics)
 		fwThrs := []float32{0.05, 0.1, 0.25, 0.25, 0.4, 0.6, 0.8, 0.9}
 		caThrs := []float32{0.02, 0.05, 0.1, 0.1, 0.3, 0.6, 0.8, 0.9}
-		if g.exThr {
-			// while the known finding is excluded only high thresholds leave room
-			// for a decision that is both right and taken by today's code
-			fwThrs = []float32{0.05, 0.1, 0.25, 0.25, 0.4, 0.7, 0.8, 0.9, 0.9}
-			caThrs = []float32{0.02, 0.1, 0.1, 0.3, 0.7, 0.8, 0.8, 0.9, 0.9}
-		}
 		c.FwThr = c17Pick(rt, "fw-thr", fwThrs)
 		c.CacheOn = c17Int(rt, "cache-on", 0, 9) < 9
 		c.CacheMetric = "cosine"
@@ -768,11 +658,6 @@ func c17GenCase() *rapid.Generator[*c17Case] {
 			}
 			c.TTLSec = c17Pick(rt, "ttl", ttls)
 			c.RAG = c17Int(rt, "rag", 0, 9) < 3
-			if c.RAG && !c.CachePre && exIdx {
-				g.excluded[c17FindIdx] = 1
-				c.CachePre = true
-				c.CacheMetric = c17Pick(rt, "cache-metric2", metrics)
-			}
 		} else {
 			c.CacheThr = 0.1
 		}
@@ -790,12 +675,9 @@ func c17GenCase() *rapid.Generator[*c17Case] {
 		// documents
 		g.docs = append(g.docs, c17SimpleDocs...)
 		if rapid.Bool().Draw(rt, "path-like-ids") {
-			if exTok {
-				g.excluded[c17FindTok] = 1
-			} else {
-				g.docs = append([]string{}, c17PathDocs...)
-				g.docs = append(g.docs, "doc_1")
-			}
+			// chunk ids as the RAG pipeline writes them (<path>_<n>): they share stemmed tokens
+			g.docs = append([]string{}, c17PathDocs...)
+			g.docs = append(g.docs, "doc_1")
 		}
 
 		m, _ := c17NewModel(c)
